@@ -196,6 +196,8 @@ func fmtLab(m map[string]string) string {
 var c06Universe = []string{
 	"d", "d-old", "d.c", "d d", "d0", "ad", "da", "d/x", "d/y z", "d/sub/f", "ad/x", "a/d/x", "d-old/x", "d.c/y",
 	"a(b", "a(b/x", "a+b/x", "a.b/x", "aXb/x", "[x]/y", "test/a", "test.c", "test-data", "test0", "lib/m.go", "lib.go", "lib-old", "x", "d/X", "D", "D/x", "Lib.go",
+	// echoes: the name of a directory again beneath it
+	"src/lib/libfoo.c", "src/lib/util.c", "a/b/abc", "lib/lib", "d/d", "d/sub/sub",
 }
 
 func conflictFree(ps []string) bool {
@@ -321,6 +323,17 @@ func runC07(c *core.Ctx) {
 			w.Write(p, k.content())
 		}
 		k.Do("commit-all")
+		if w.Hist%12 == 8 {
+			// scale: a staged set of 120..400 paths (staging-area file and root tree beyond 4 KiB)
+			big := k.Populate(120 + k.R.IntN(280))
+			k.goit("add", ".")
+			k.goit("status")
+			k.Do("commit")
+			k.goit("status")
+			k.PerturbMany(big)
+			k.goit("add", ".")
+			k.goit("status")
+		}
 		steps := c.Pick(30, 36)
 		for i := 0; i < steps; i++ {
 			k.Step()
@@ -446,6 +459,13 @@ func (C13Mon) After(w *core.World, st *core.Step) {
 		return
 	}
 	c := w.C
+	if len(st.Argv) == 1 && st.Exit != 0 && st.Signal == "" && !st.Res.TimedOut {
+		// no report at all: on a repository whose files decode, `status` has nothing to refuse
+		if _, ok := expectWorktreeReport(st.Pre); ok {
+			c.Oracle("C13.report-given")
+			w.Fail("C13.report-given", "status-fails", "none", "%s exits %d on a repository whose staging area, HEAD and objects decode: %s", st.String(), st.Exit, clipS(firstLine(st.Stdout+st.Stderr), 160))
+		}
+	}
 	if len(st.Argv) != 1 || st.Exit != 0 {
 		w.Shadow["c13.onlyMeta"] = false
 		return
@@ -454,6 +474,7 @@ func (C13Mon) After(w *core.World, st *core.Step) {
 	if !ok {
 		return
 	}
+	c.Oracle("C13.report-given")
 	rep := ParseStatus(st.Stdout)
 	ir := ParseIgnore(st.Pre.WT())
 	trig := "none"
@@ -548,8 +569,48 @@ func writeIgnoreScenario(k *Walker) {
 		w.Write(d2+"/g.go", k.content())
 		w.Write("src/keep.go", k.content())
 	}
+	var related [][2]string // paths that a second, related rule decides
+	if r.IntN(3) == 0 {
+		// two rules where one is a string prefix of the other, in either order: *.js / *.json, out/ / out2/
+		pairs := [][2]string{{".js", ".json"}, {".o", ".obj"}, {".c", ".cpp"}, {".log", ".log2"}, {".ext", ".ext2"}}
+		pr := pairs[r.IntN(len(pairs))]
+		a, b := "*"+pr[0], "*"+pr[1]
+		if r.IntN(2) == 0 {
+			a, b = b, a
+		}
+		lines = append(lines, a, b)
+		related = append(related, [2]string{"pkg" + pr[0], "x"}, [2]string{"pkg" + pr[1], "x"}, [2]string{"sub/data" + pr[1], "x"})
+		if r.IntN(2) == 0 {
+			dp := [][2]string{{"out", "out2"}, {"gen", "gen.d"}, {"tmp d", "tmp d2"}}[r.IntN(3)]
+			x, y := dp[0]+"/", dp[1]+"/"
+			if r.IntN(2) == 0 {
+				x, y = y, x
+			}
+			lines = append(lines, x, y)
+			related = append(related, [2]string{dp[0] + "/o", "x"}, [2]string{dp[1] + "/o", "x"}, [2]string{dp[1] + "/deep/o", "x"})
+		}
+	}
 	if len(lines) == 0 {
 		lines = append(lines, d+"/")
+	}
+	for _, rp := range related {
+		w.Write(rp[0], k.content())
+	}
+	if r.IntN(6) == 0 {
+		// scale: an ignore file of 5..12 KiB; the rules that matter come first, in the middle or last
+		var pad []string
+		for i, n := 0, 150+r.IntN(250); i < n; i++ {
+			pad = append(pad, fmt.Sprintf("third_party/vendor-%03d-generated-output/", i))
+		}
+		switch r.IntN(3) {
+		case 0:
+			lines = append(lines, pad...)
+		case 1:
+			lines = append(pad, lines...)
+		default:
+			lines = append(append(append([]string{}, pad[:len(pad)/2]...), lines...), pad[len(pad)/2:]...)
+		}
+		k.W.C.Count("scale.long-ignore-file")
 	}
 	w.Write(".goitignore", []byte(strings.Join(lines, "\n")+"\n"))
 	// ignored things and near misses
@@ -592,6 +653,21 @@ func runC13(c *core.Ctx) {
 			} else {
 				k.AddAllTracked()
 			}
+		}
+		if w.Hist%25 == 11 {
+			// scale: hundreds of tracked files, about half of them modified, a few deleted; the report is asked for
+			// several times (it must be the same exact sets every time, whatever the scheduling of the process)
+			big := k.Populate(300 + k.R.IntN(900))
+			k.goit("add", ".")
+			if k.chance(50) {
+				k.Do("commit")
+			}
+			k.goit("status")
+			k.PerturbMany(big)
+			for i := 0; i < 8; i++ {
+				k.goit("status")
+			}
+			k.W.C.Count("C13.scale-status-runs")
 		}
 		steps := c.Pick(36, 40)
 		for i := 0; i < steps; i++ {
